@@ -22,6 +22,8 @@ def check_one(ctx, impl, angle, tol, via="get_angle_spec_from_float", got=None, 
     """oracle on one call; records the violation.  Returns (nds|None, oracle dict)."""
     if via == "get_angle_spec_from_float":
         got, st = impl.spec(angle, tol)
+        if st == "timeout" and stats is not None:
+            stats["timeouts"] = stats.get("timeouts", 0) + 1
     o = ac.oracle(angle, tol, got)
     if not o["ok"]:
         if o["key"] is not None and stats is not None:
@@ -69,17 +71,33 @@ def run(ctx):
         r = ctx.coqc("Gen_Angle.v")
         ctx.gen_obligation("Gen_Angle.v compiles", r.ok, r.err[-300:])
     ctx.props("C19")
+    if not quick and not ctx.broken:
+        # independent re-check of the whole .vo closure of the property file
+        import subprocess
+        from vlib import COQ
+        r = subprocess.run(["timeout", "900", "coqchk", "-silent", "-o", "-Q", COQ, "NQ", "-Q", ctx.build, "Gen", "Gen.C19"],
+                           capture_output=True, text=True, cwd=ctx.build)
+        txt = r.stdout + r.stderr
+        ok = r.returncode == 0 and "Axioms: <none>" in txt and "type-in-type: <none>" in txt
+        ctx.checker_cmds.append("coqchk -silent -o -Q coq NQ -Q build/C19 Gen Gen.C19")
+        ctx.gen_obligation("coqchk -o on the closure of C19.vo: no axioms, nothing assumed", ok, txt[-300:])
 
     # ---- corpus (old witnesses of repaired defects, recorded finding)
     n_corpus = run_corpus(ctx, impl)
 
     # ---- generated stream: implementation + oracle
-    n_rand = 15000 if quick else 400000
+    n_rand = 9000 if quick else 600000
     gen = ac.gen_cases(ctx.rng, n_rand)
     cases, cls_count, len_count, tol_count, maxd = [], {}, {}, {}, 0
     fe_max, fe_arg, fe_by_decade = 0.0, None, {}
     excess_max, excess_arg = -1.0, None
     for angle, tol, cls in gen:
+        if stats.get("timeouts", 0) >= 3:
+            # the implementation does not return (2 s limit per call): stop feeding it, the
+            # violations are recorded
+            ctx.notes.append("generation stopped after 3 calls that did not return within 2 s")
+            gen = gen[:len(cases)]
+            break
         got, o = check_one(ctx, impl, angle, tol, stats=stats)
         cases.append((angle, tol, got))
         cls_count[cls] = cls_count.get(cls, 0) + 1
@@ -104,7 +122,7 @@ def run(ctx):
     ctx.log(f"{len(gen)} calls run through the oracle")
 
     # ---- builder route: rot_X/Y/Z(angle=...) -> bytes -> decoded instructions
-    bcases = ac.gen_builder_cases(ctx.rng, 300 if quick else 6000)
+    bcases = [] if stats.get("timeouts", 0) >= 3 else ac.gen_builder_cases(ctx.rng, 300 if quick else 6000)
     b_rot = 0
     for rots in bcases:
         em = impl.emit(rots)
@@ -135,7 +153,7 @@ def run(ctx):
                                       rots=[[a, float(x).hex()] for a, x in rots]))
 
     # ---- correspondence with the Coq model (vm_compute inside coqc)
-    n_coq = len(cases) if quick else min(len(cases), 120000)
+    n_coq = len(cases) if quick else min(len(cases), 150000)
     if not quick and n_coq < len(cases):
         # all deterministic families and builder cases, plus a random sample of the rest
         det = [i for i, c in enumerate(gen) if c[2] not in ("uniform[0,2pi)", "uniform[-2pi,0)")]
@@ -150,11 +168,13 @@ def run(ctx):
         hist = {0: len(sel) - len(codes)}
         for j, c in codes.items():
             hist[c] = hist.get(c, 0) + 1
-            if c >= 2:
+            a_, t_ = cases[sel[j]][0], cases[sel[j]][1]
+            subnormal = (0 < abs(a_) < 1e-300) or (0 < t_ < 1e-300)   # intermediates leave the normal range: not modelled
+            if c == 2 or (c == 3 and not subnormal):
                 mism.append((sel[j], c))
         ctx.coverage["correspondence"] = dict(
             cases=len(sel), equal_to_exact_arithmetic=hist.get(0, 0), other_d_inside_window=hist.get(1, 0),
-            not_allowed_by_model=hist.get(2, 0), front_end_outside_model=hist.get(3, 0),
+            not_allowed_by_model=hist.get(2, 0), front_end_outside_model_subnormal_inputs=hist.get(3, 0),
             samples_other_d=[[float(cases[sel[j]][0]).hex(), float(cases[sel[j]][1]).hex(), cases[sel[j]][2]]
                              for j, c in list(codes.items())[:200] if c == 1][:4])
         ctx.log(f"correspondence: {hist}")
@@ -166,6 +186,13 @@ def run(ctx):
     # ---- something no longer checks although the oracle held so far: search
     if ctx.broken and not [v for v in ctx.violations if v["key"] is None]:
         search(ctx, impl, mism, cases)
+        if not [v for v in ctx.violations if v["key"] is None]:
+            # vlib.finish() adds the no-failing-input-found violation only when there is no
+            # violation at all; the replayed known finding must not mask a broken tie
+            ctx.violation("no longer checks: " + "; ".join(ctx.broken)[:600],
+                          dict(broken=ctx.broken, differing_cases=[
+                              dict(angle=float(cases[i][0]).hex(), tol=float(cases[i][1]).hex(), impl=cases[i][2], code=c)
+                              for i, c in mism[:10]]), key=None, found_input=False)
 
     ctx.samples = [dict(angle=float(a).hex(), angle_repr=repr(a), tol=t, steps=g) for a, t, g in
                    [cases[0], cases[len(gen) // 3], cases[len(gen) // 2], cases[len(gen) - 1], cases[-1]]]
